@@ -595,6 +595,23 @@ func runCollator(id, tier string, seed int64, out *Out) {
 		caseID++
 		pairLine(out, caseID, shared, xs, rebuild(xs), J{"copy": true, "fam": "wide-array-of-collections"})
 	}
+	// Go maps of every size up to 48 (the collator sorts the keys of both maps with the merge sorter:
+	// every length class of its passes is met), compared with an equal copy and with a changed copy
+	for n := 1; n <= 48; n++ {
+		a := map[any]any{}
+		for i := 0; i < n; i++ {
+			a[int64((i*37)%101)] = int64(i)
+		}
+		caseID++
+		pairLine(out, caseID, shared, a, rebuild(a), J{"copy": true, "fam": "map-every-size"})
+		b := rebuild(a).(map[any]any)
+		for k := range b {
+			b[k] = int64(-1)
+			break
+		}
+		caseID++
+		pairLine(out, caseID, shared, a, b, J{"mut": true, "fam": "map-every-size"})
+	}
 	// keys that rank Equal without being the identical Go key (ranking only: CompareValues is
 	// not defined across integer widths, which lie outside the canonical universe)
 	for _, pair := range [][2]any{{int(1), int64(1)}, {int8(1), int(1)}, {uint16(7), uint64(7)}, {float32(0.5), float64(0.5)}} {
